@@ -285,6 +285,10 @@ class World:
             m.atoms[a] = {"atom_type": z}
         for x, y, role in op["bonds"]:
             m.bonds[B(x, y)] = {"reaction": role} if (role and m.is_reaction) else {}
+        if m.is_stereo:
+            for d in op.get("astereo", ()):
+                d = model.tuple_desc(d)
+                m.astereo[d[1][0]] = d
         real = None
         if self.real_enabled:
             R = self.R
